@@ -32,8 +32,20 @@ def make_axis(axname: str, positions=POSITIONS, default_shifts=None, boundary=No
     )
 
 
+GRID_INIT_LITERALS: dict = {}  # set by core.Project: attributes Grid.__init__ initialises with an empty container / a constant
+
+
 def make_grid(axnames=("AX",), positions=POSITIONS, default_shifts=None, face_connections=None, facedim=None, ds=None, **axis_kw):
     axes = {Sym(a): make_axis(a, positions, default_shifts, **axis_kw) for a in axnames}
+    import copy as _copy
+
+    g = _make_grid(axes, face_connections, facedim, ds)
+    for k, v in GRID_INIT_LITERALS.items():
+        g.attrs.setdefault(k, _copy.deepcopy(v))
+    return g
+
+
+def _make_grid(axes, face_connections, facedim, ds):
     return Obj(
         "Grid",
         "grid",
